@@ -375,9 +375,9 @@ impl MqttState {
                 "PubAck Pkid = {:?}, reason: {:?}",
                 puback.pkid, puback.reason
             );
-            return Ok(None);
         }
 
+        // a refused publish has freed its packet id just like an accepted one
         if let Some(publish) = self.check_collision(puback.pkid) {
             self.outgoing_pub[publish.pkid as usize] = Some(publish.clone());
             self.inflight += 1;
@@ -411,7 +411,10 @@ impl MqttState {
                 "PubRec Pkid = {:?}, reason: {:?}",
                 pubrec.pkid, pubrec.reason
             );
-            return Ok(None);
+
+            // the flow ends here (no PUBREL, no PUBCOMP): the window slot and the id are free
+            self.inflight -= 1;
+            return Ok(self.release_collision(pubrec.pkid));
         }
 
         // NOTE: Inflight - 1 for qos2 in comp
@@ -455,11 +458,15 @@ impl MqttState {
                 "PubComp Pkid = {:?}, reason: {:?}",
                 pubcomp.pkid, pubcomp.reason
             );
-            return Ok(None);
         }
 
         self.inflight -= 1;
-        let outgoing = self.check_collision(pubcomp.pkid).map(|publish| {
+        Ok(self.release_collision(pubcomp.pkid))
+    }
+
+    /// Sends the publish that was parked on `pkid`, if any, now that the id is free
+    fn release_collision(&mut self, pkid: u16) -> Option<Packet> {
+        self.check_collision(pkid).map(|publish| {
             let pkid = publish.pkid;
             self.outgoing_pub[pkid as usize] = Some(publish.clone());
             self.inflight += 1;
@@ -469,9 +476,7 @@ impl MqttState {
             self.collision_ping_count = 0;
 
             Packet::Publish(publish)
-        });
-
-        Ok(outgoing)
+        })
     }
 
     fn handle_incoming_pingresp(&mut self) -> Result<Option<Packet>, StateError> {
